@@ -281,6 +281,41 @@ def prop_c18range(cname, d, hname, msg):
         except Exception as ex:
             return f"FAIL malformed DER signature {blob.hex()}: {type(ex).__name__} at {where(ex)}"
         return f"FAIL malformed DER signature {blob.hex()} accepted"
+    # structurally consistent malformations of the genuine DER signature (all enclosing lengths recomputed): anything that is
+    # not the one DER encoding of (r0, s0) must be refused
+    import random
+    import zlib
+    import dertree
+    good = util.sigencode_der(r0, s0, n)
+    body = good[2:] if good[1] < 0x80 else good[2 + (good[1] & 0x7F):]
+    lrng = random.Random(zlib.crc32(good))
+    variants = [(f"{junk.hex()} after s inside the SEQUENCE", b"\x30" + dertree.enc_len(len(body) + len(junk)) + body + junk)
+                for junk in (b"\x00", b"\x05\x00", b"\x02\x01\x01", b"\xde\xad\xbe\xef", der.encode_integer(s0))]
+    variants.append(("non-minimal length of the SEQUENCE", b"\x30" + bytes([0x80 | (len(dertree.enc_len(len(body))) )]) +
+                     len(body).to_bytes(len(dertree.enc_len(len(body))), "big") + body))
+    variants.append(("zero-padded r", b"\x30" + dertree.enc_len(len(body) + 1) + b"\x02" +
+                     dertree.enc_len(len(der.encode_integer(r0)) - 2 + 1) + b"\x00" + der.encode_integer(r0)[2:] + der.encode_integer(s0)))
+    variants += list(dertree.mutations(good, lrng))
+    for what, blob in variants:
+        if blob == good:
+            continue
+        try:
+            res = vk.verify(blob, m, hashfunc=hf, sigdecode=util.sigdecode_der)
+        except BadSignatureError:
+            continue
+        except Exception as ex:
+            return f"FAIL malformed DER signature ({what}) {blob.hex()}: {type(ex).__name__} at {where(ex)}"
+        return f"FAIL malformed DER signature ({what}) {blob.hex()} accepted: {res!r}"
+    rs, ss = util.sigencode_strings(r0, s0, n)
+    for what, pair in (("short r", (rs[1:], ss)), ("long r", (b"\x00" + rs, ss)), ("short s", (rs, ss[:-1])),
+                       ("long s", (rs, ss + b"\x00")), ("three strings", (rs, ss, b"")), ("one string", (rs + ss,))):
+        try:
+            res = vk.verify(pair, m, hashfunc=hf, sigdecode=util.sigdecode_strings)
+        except BadSignatureError:
+            continue
+        except Exception as ex:
+            return f"FAIL malformed signature string pair ({what}): {type(ex).__name__} at {where(ex)}"
+        return f"FAIL malformed signature string pair ({what}) accepted: {res!r}"
     for blob in (b"", b"\x01" * (2 * ln - 1), b"\x01" * (2 * ln + 1)):
         try:
             vk.verify(blob, m, hashfunc=hf, sigdecode=util.sigdecode_string)
